@@ -132,6 +132,9 @@ class GeomBase(object):
         pixel_ranges = self._render(nside_render=_nside, return_pixel_ranges=True)
 
         if self._nside_render is not None:
+            if pixel_ranges.size == 0:
+                # Nothing is rendered at nside_render (hpgeom cannot upgrade empty ranges).
+                return pixel_ranges
             return hpg.upgrade_pixel_ranges(_nside, pixel_ranges, nside)
         else:
             return pixel_ranges
